@@ -4,7 +4,7 @@
 From TV Require Import Base.Prelude Base.Utf8 Base.Winnow Gen.Consts.
 From TV Require Import Model.Trivia Model.Strings Model.Datetime Model.DatetimeStd Spec.DatetimeSpec Model.Numbers Model.Tree Model.Parse Model.Document.
 From TV Require Import Model.Write Model.Encode Model.Build.
-From TV Require Import Proofs.StringsRTDefs Proofs.StringsRTBase Proofs.StringsRTTop.
+From TV Require Import Proofs.Eoi Proofs.StringsRTDefs Proofs.StringsRTBase Proofs.StringsRTTop.
 From TV Require Import Proofs.BuiltRTBase Proofs.BuiltRTEncode Proofs.BuiltRTParse Proofs.BuiltRTKey Proofs.BuiltRTValue Proofs.BuiltRTLeaf Proofs.BuiltRTDatetime Proofs.BuiltRTWF.
 Require Import Lia ZifyBool ZifyN ZifyNat.
 
@@ -143,10 +143,10 @@ Proof.
   { rewrite app_nil_r. lia. }
   { cbn [Nat.add]. exact Hd. }
   exists v'. split; [|exact Ha].
-  unfold parse_value_raw, parse_all, new_input.
-  assert (Ev : value_ (mkIn (txt float_text v) 0%N 0) = Ok v' (mkIn [] p' 0)).
-  { unfold value_. cbn [rest]. rewrite app_nil_r in E. exact E. }
-  rewrite (bind_ok _ _ _ _ _ Ev). reflexivity.
+  unfold parse_value_raw.
+  assert (Ev : value_ (new_input (txt float_text v)) = Ok v' (mkIn [] p' 0)).
+  { unfold value_, new_input. cbn [rest]. rewrite app_nil_r in E. exact E. }
+  rewrite (parse_all_eoi_ok _ _ _ _ Ev eq_refl). reflexivity.
 Qed.
 
 (* ... in particular for everything the value constructors assemble *)
